@@ -198,7 +198,7 @@ func genTask(rt *rapid.T) gen.Map {
 	d = maybe(rt, d, "exportAs", 2, func() gen.Node { return strs(rt) })
 	d = maybe(rt, d, "env", 3, func() gen.Node { return smap(rt) })
 	d = maybe(rt, d, "env_file", 3, func() gen.Node {
-		return rapid.SampledFrom([]string{"envf", "", "envgen", "envbad", "missing", "impdir"}[:2+2*hostility]).Draw(rt, "env_file")
+		return rapid.SampledFrom([]string{"envgen", "envf", "envgen", "", "envbad", "missing", "impdir"}[:3+2*hostility]).Draw(rt, "env_file")
 	})
 	d = maybe(rt, d, "variables", 3, func() gen.Node { return smap(rt) })
 	d = maybe(rt, d, "name", 2, func() gen.Node { return strs(rt) })
@@ -467,8 +467,34 @@ var yamlExtras = []string{
 	"\ntasks:\n  t: {command: ~, env: ~, variations: [~]}\n",
 }
 
+var envKeys = []string{"A", "K1", "", "a b", "#c", "export X", " Y", "é", "K.x", "1"}
+var envValTokens = []string{"", "\"", "'", "\\", "a", " ", "#", "$X", "${", "=", "\t", "\"a\"", "'a'", "é", "\x00", "\"\"", "''", "`", "\r"}
+
+// envGrammarLine builds KEY[=VALUE] from small alphabets of keys and value tokens (quotes, escapes,
+// separators, comments): the shapes an env-file parser treats specially.
+func envGrammarLine(rt *rapid.T) string {
+	l := rapid.SampledFrom(envKeys).Draw(rt, "envkey")
+	if rapid.IntRange(0, 7).Draw(rt, "noeq") == 0 {
+		return l
+	}
+	l += "="
+	for i := rapid.IntRange(0, 3).Draw(rt, "nvaltok"); i > 0; i-- {
+		l += rapid.SampledFrom(envValTokens).Draw(rt, "valtok")
+	}
+	return l
+}
+
 func envFileLines(rt *rapid.T) []byte {
 	var b []byte
+	if rapid.Bool().Draw(rt, "env-grammar") {
+		for i := rapid.IntRange(1, 6).Draw(rt, "envlines"); i > 0; i-- {
+			b = append(b, envGrammarLine(rt)...)
+			if rapid.IntRange(0, 9).Draw(rt, "nl") > 0 {
+				b = append(b, '\n')
+			}
+		}
+		return b
+	}
 	for i := rapid.IntRange(0, 6).Draw(rt, "envlines"); i > 0; i-- {
 		l := rapid.SampledFrom([]string{"A=1", "", "noeq", "B=2=3", "=x", "  ", "#comment", "K=", "\x00=\x00", "LONG=" + strings.Repeat("x", 70000), "A=\xff", "=", "K = v", "export A=1"}).Draw(rt, "envline")
 		b = append(b, l...)
